@@ -1,0 +1,45 @@
+// Copyright 2022 The Go Authors. All rights reserved.
+// Use of this source code is governed by a BSD-style
+// license that can be found in the LICENSE file.
+
+//go:build verif
+
+// Machine-checked contracts for package benchfmt.  This file holds only
+// specification comments (//@ lines, read by /verif/gocv) and ghost client
+// functions that are never called; it is compiled only under the "verif" tag.
+
+package benchfmt
+
+//@ pure func isdigit(c byte) bool = '0' <= c && c <= '9'
+
+//@ func (n Name) splitGomaxprocs() (prefix, gomaxprocs []byte)
+//@   props C05
+//@   ensures gomaxprocs == nil ==> prefix === n
+//@   ensures gomaxprocs != nil ==> prefix === n[:len(prefix)] && gomaxprocs === n[len(prefix):]
+//@   ensures gomaxprocs != nil ==> len(gomaxprocs) >= 2 && gomaxprocs[0] == '-'
+//@   ensures gomaxprocs != nil ==> forall j int :: len(prefix) < j < len(n) ==> isdigit(n[j])
+//@   ensures gomaxprocs == nil ==> !(exists k int :: 0 <= k && k+1 < len(n) && n[k] == '-' &&
+//@              (forall j int :: k < j < len(n) ==> isdigit(n[j])))
+//@   loop 1:
+//@     invariant -1 <= i <= len(n)-1
+//@     invariant forall j int :: i < j < len(n) ==> isdigit(n[j])
+//@     decreases i + 1
+
+//@ func (n Name) Parts() (baseName []byte, parts [][]byte)
+//@   props C05
+//@   ensures baseName === n[:len(baseName)]
+//@   ensures fresh(parts) || len(parts) == 0
+//@   ensures forall k int :: 0 <= k < len(parts) ==> sub(parts[k], n) && len(parts[k]) >= 1
+//@   ensures len(parts) == 0 ==> len(baseName) == len(n)
+//@   ensures len(parts) > 0 ==> off(parts[0]) == end(baseName) && end(parts[len(parts)-1]) == end(n)
+//@   ensures forall k int :: 0 <= k < len(parts)-1 ==> end(parts[k]) == off(parts[k+1])
+//@   loop 1:
+//@     invariant 0 <= prev <= idx() <= len(buf)
+//@     invariant unchanged()
+//@     invariant len(nameParts) == 0 ==> prev == 0 && nameParts == nil
+//@     invariant len(nameParts) > 0 ==> fresh(nameParts) && prev < idx()
+//@     invariant len(nameParts) > 0 ==> off(nameParts[0]) == off(buf) && end(nameParts[len(nameParts)-1]) == off(buf)+prev
+//@     invariant forall m int :: 0 <= m < len(nameParts) ==> ref(nameParts[m]) == ref(buf) && off(buf) <= off(nameParts[m]) && end(nameParts[m]) <= off(buf)+prev && len(nameParts[m]) >= 0
+//@     invariant forall m int :: 0 <= m < len(nameParts)-1 ==> end(nameParts[m]) == off(nameParts[m+1])
+//@     invariant forall m int :: 1 <= m < len(nameParts) ==> len(nameParts[m]) >= 1
+//@     decreases len(buf) - idx()
